@@ -62,17 +62,22 @@ pub struct Knobs {
     /// per-mille chance of the suspicious-but-plausible forms (binding alternations, partial
     /// struct literals, field-order twins) in the well-typed stream
     pub odd: u64,
+    /// place one dedicated extra function built around a typing rule of the lowering pass:
+    /// `(kind index, mistyped)`.  `mistyped = true`: two same-NAMED things differ only in TYPE
+    /// (the front end has to reject); `false`: the same template with equal types (control: has
+    /// to be accepted and is executed).
+    pub near: Option<(usize, bool)>,
 }
 
 impl Knobs {
     pub fn c22(depth: usize) -> Self {
-        Knobs { max_depth: depth, ffi: 40, fail: 15, ill: 0, odd: 0 }
+        Knobs { max_depth: depth, ffi: 40, fail: 15, ill: 0, odd: 0, near: None }
     }
     pub fn c23(depth: usize) -> Self {
-        Knobs { max_depth: depth, ffi: 300, fail: 120, ill: 0, odd: 0 }
+        Knobs { max_depth: depth, ffi: 300, fail: 120, ill: 0, odd: 0, near: None }
     }
     pub fn c24(depth: usize) -> Self {
-        Knobs { max_depth: depth, ffi: 40, fail: 30, ill: 0, odd: 0 }
+        Knobs { max_depth: depth, ffi: 40, fail: 30, ill: 0, odd: 0, near: None }
     }
 }
 
@@ -92,7 +97,33 @@ pub struct Gen<'a> {
     nn: bool,
     pub ill_kind: Option<&'static str>,
     pub stats: Vec<&'static str>,
+    /// source text of the dedicated near-miss / control functions (appended after the others)
+    extra_src: String,
 }
+
+/// the typing rules covered by `Knobs::near`
+pub const NEAR_KINDS: &[&str] = &[
+    "substruct-field-type",
+    "cast-field-type",
+    "source-field-type",
+    "struct-lit-field-type",
+    "call-arg-type",
+    "return-type",
+    "match-arm-type",
+    "if-branch-type",
+    "field-access-type",
+    "coalesce-default-type",
+    "some-payload-type",
+    "let-var-type",
+    "binding-payload-type",
+    "nominal-struct",
+    "enum-of-other-enum",
+    "eq-operand-types",
+    "ffi-arg-type",
+    "result-payload-type",
+    "substruct-nested-field-type",
+    "stmt-match-scrutinee-pattern-type",
+];
 
 const INTS: &[i64] = &[
     0,
@@ -126,6 +157,7 @@ impl<'a> Gen<'a> {
             nn: false,
             ill_kind: None,
             stats: vec![],
+            extra_src: String::new(),
         }
     }
 
@@ -854,6 +886,160 @@ impl<'a> Gen<'a> {
         format!("function {}({}) {} {{\n{body}}}\n", sig.name, ps.join(", "), self.s.ty_src(&sig.ret))
     }
 
+    // -------------------------------------------------------------- dedicated typing-rule functions
+
+    /// two types that differ (`mistyped`) or coincide (control)
+    fn type_pair(&mut self, mistyped: bool) -> (Ty, Ty) {
+        let oi = Ty::Opt(Box::new(Ty::Int));
+        let ob = Ty::Opt(Box::new(Ty::Bool));
+        let mut pairs = vec![
+            (Ty::Int, Ty::Str),
+            (Ty::Str, Ty::Int),
+            (oi.clone(), Ty::Int),
+            (Ty::Int, oi.clone()),
+            (Ty::Int, Ty::Bool),
+            (Ty::Bool, Ty::Int),
+            (oi.clone(), ob.clone()),
+            (Ty::Res(Box::new(Ty::Int), Box::new(Ty::Bool)), Ty::Res(Box::new(Ty::Bool), Box::new(Ty::Int))),
+            (oi.clone(), Ty::Opt(Box::new(oi.clone()))),
+        ];
+        if self.s.enums.len() > 1 {
+            pairs.push((Ty::Enum(0), Ty::Enum(1)));
+        }
+        let (a, b) = self.rng.pick(&pairs).clone();
+        if mistyped {
+            (a, b)
+        } else {
+            (a.clone(), a)
+        }
+    }
+
+    fn add_struct(&mut self, fields: Vec<(String, Ty)>) -> usize {
+        let n = self.s.structs.len();
+        self.s.structs.push((format!("S{n}"), fields));
+        n
+    }
+
+    fn add_fn(&mut self, params: Vec<(String, Ty)>, ret: Ty, body: String) -> String {
+        let name = format!("f{}", self.s.funs.len());
+        let ps: Vec<String> = params.iter().map(|(n, t)| format!("{n} {}", self.s.ty_src(t))).collect();
+        self.extra_src.push_str(&format!("function {name}({}) {} {{\n{body}\n}}\n", ps.join(", "), self.s.ty_src(&ret)));
+        self.s.funs.push(FunSig { name: name.clone(), params, ret });
+        name
+    }
+
+    /// One extra function (plus the structs it needs) around typing rule `kind`.
+    fn near_fn(&mut self, kind: usize, mistyped: bool) {
+        let (t1, t2) = self.type_pair(mistyped);
+        let u = self.s.structs.len();
+        let (fa, fb) = (format!("k{u}a"), format!("k{u}b"));
+        let l1 = self.literal(&t1);
+        let l2 = self.literal(&t2);
+        let sname = |g: &Self, i: usize| g.s.structs[i].0.clone();
+        match NEAR_KINDS[kind % NEAR_KINDS.len()] {
+            "substruct-field-type" => {
+                let src = self.add_struct(vec![(fa.clone(), t1), (fb, Ty::Int)]);
+                let tgt = self.add_struct(vec![(fa, t2)]);
+                let tn = sname(self, tgt);
+                self.add_fn(vec![("q".into(), Ty::Struct(src))], Ty::Struct(tgt), format!("return q substruct {tn}"));
+            }
+            "cast-field-type" => {
+                let src = self.add_struct(vec![(fa.clone(), t1), (fb.clone(), Ty::Int)]);
+                let tgt = self.add_struct(vec![(fb, Ty::Int), (fa, t2)]);
+                let tn = sname(self, tgt);
+                self.add_fn(vec![("q".into(), Ty::Struct(src))], Ty::Struct(tgt), format!("return q as {tn}"));
+            }
+            "source-field-type" => {
+                let tgt = self.add_struct(vec![(fa.clone(), t1), (fb.clone(), Ty::Int)]);
+                let src = self.add_struct(vec![(fa, t2)]);
+                let tn = sname(self, tgt);
+                self.add_fn(vec![("q".into(), Ty::Struct(src))], Ty::Struct(tgt), format!("return {tn} {{ {fb}: 1, ...q }}"));
+            }
+            "struct-lit-field-type" => {
+                let tgt = self.add_struct(vec![(fa.clone(), t1), (fb.clone(), Ty::Int)]);
+                let tn = sname(self, tgt);
+                self.add_fn(vec![], Ty::Struct(tgt), format!("return {tn} {{ {fa}: {l2}, {fb}: 1 }}"));
+            }
+            "call-arg-type" => {
+                let h = self.add_fn(vec![("q".into(), t1)], Ty::Int, "return 1".into());
+                self.add_fn(vec![], Ty::Int, format!("return {h}({l2})"));
+            }
+            "return-type" => {
+                self.add_fn(vec![], t1, format!("return {l2}"));
+            }
+            "match-arm-type" => {
+                self.add_fn(vec![("q".into(), Ty::Int)], t1, format!("return match (q) {{ 0 => ({l1}) _ => ({l2}) }}"));
+            }
+            "if-branch-type" => {
+                self.add_fn(vec![("q".into(), Ty::Bool)], t1, format!("return if (q) {{ : {l1} }} else {{ : {l2} }}"));
+            }
+            "field-access-type" => {
+                let src = self.add_struct(vec![(fa.clone(), t2), (fb, Ty::Int)]);
+                self.add_fn(vec![("q".into(), Ty::Struct(src))], t1, format!("return (q).{fa}"));
+            }
+            "coalesce-default-type" => {
+                self.add_fn(vec![("q".into(), Ty::Opt(Box::new(t1.clone())))], t1, format!("return ((q) or ({l2}))"));
+            }
+            "some-payload-type" => {
+                self.add_fn(vec![], Ty::Opt(Box::new(t1)), format!("return Some({l2})"));
+            }
+            "let-var-type" => {
+                self.add_fn(vec![], t1, format!("let w = {l2}\nreturn w"));
+            }
+            "binding-payload-type" => {
+                self.add_fn(
+                    vec![("q".into(), Ty::Opt(Box::new(t2)))],
+                    t1,
+                    format!("match (q) {{\nSome(w) => {{\nreturn w\n}}\nNone => {{\nreturn {l1}\n}}\n}}\nreturn {l1}"),
+                );
+            }
+            "nominal-struct" => {
+                // same field names and types, another struct name (control: the same struct)
+                let a = self.add_struct(vec![(fa.clone(), Ty::Int)]);
+                let b = if mistyped { self.add_struct(vec![(fa, Ty::Int)]) } else { a };
+                self.add_fn(vec![("q".into(), Ty::Struct(a))], Ty::Struct(b), "return q".into());
+            }
+            "enum-of-other-enum" => {
+                // both enums have a variant `A`
+                let (e1, e2) = if mistyped && self.s.enums.len() > 1 { (0, 1) } else { (0, 0) };
+                let n2 = self.s.enums[e2].0.clone();
+                if e1 == e2 && mistyped {
+                    // one enum only: fall back to another near miss
+                    self.add_fn(vec![], Ty::Enum(0), "return 0".into());
+                } else {
+                    self.add_fn(vec![], Ty::Enum(e1), format!("return {n2}::A"));
+                }
+            }
+            "eq-operand-types" => {
+                self.add_fn(vec![], Ty::Bool, format!("return (({l1}) == ({l2}))"));
+            }
+            "ffi-arg-type" => {
+                let arg = if mistyped { self.literal(&Ty::Bool) } else { "5".into() };
+                self.add_fn(vec![], Ty::Int, format!("return t::mark({arg})"));
+            }
+            "result-payload-type" => {
+                let ok = self.rng.chance(1, 2);
+                let rt = Ty::Res(Box::new(t1.clone()), Box::new(t1));
+                self.add_fn(vec![], rt, format!("return {}({l2})", if ok { "Ok" } else { "Err" }));
+            }
+            "substruct-nested-field-type" => {
+                // the differing field is itself optional: option[T1] vs option[T2]
+                let src = self.add_struct(vec![(fa.clone(), Ty::Opt(Box::new(t1))), (fb, Ty::Int)]);
+                let tgt = self.add_struct(vec![(fa, Ty::Opt(Box::new(t2)))]);
+                let tn = sname(self, tgt);
+                self.add_fn(vec![("q".into(), Ty::Struct(src))], Ty::Struct(tgt), format!("return q substruct {tn}"));
+            }
+            _ => {
+                // match statement: literal pattern of another type than the scrutinee
+                self.add_fn(
+                    vec![("q".into(), t1)],
+                    Ty::Int,
+                    format!("match (q) {{\n{l2} => {{\nreturn 1\n}}\n_ => {{\nreturn 2\n}}\n}}\nreturn 3"),
+                );
+            }
+        }
+    }
+
     pub fn program(&mut self) -> String {
         self.gen_schema();
         self.gen_special_structs();
@@ -869,6 +1055,15 @@ impl<'a> Gen<'a> {
             let ret = self.any_ty(1);
             self.s.funs.push(FunSig { name: format!("f{i}"), params, ret });
         }
+        if let Some((kind, mistyped)) = self.k.near {
+            if mistyped {
+                self.ill_pending = false;
+                self.ill_kind = Some(NEAR_KINDS[kind % NEAR_KINDS.len()]);
+            } else {
+                self.stats.push("control:typing-rule-template");
+            }
+            self.near_fn(kind, mistyped);
+        }
         let mut src = String::from("use t\n");
         for (n, vs) in &self.s.enums {
             src.push_str(&format!("enum {n} {{ {} }}\n", vs.join(", ")));
@@ -881,6 +1076,7 @@ impl<'a> Gen<'a> {
             let f = self.function(i);
             src.push_str(&f);
         }
+        src.push_str(&self.extra_src);
         src
     }
 
